@@ -15,7 +15,7 @@ META = {
     "technique": "Lean 4 theorems over a hand-written step model of CircularAllocator and mod_add (invariant, "
     "refinement to a queue of identifiers, history induction); lock-step correspondence of the model with the "
     "real component in pysim",
-    "level_text": "c27_alloc/c27_free/c27_refines/c27_count/c27_validated_safe/c27_inv are proved for every "
+    "level_text": "c27_inv/c27_alloc/c27_alloc_fresh/c27_free/c27_refines/c27_count/c27_history/c27_validated_safe/c27_accept are proved for every "
     "(entries>=1, max_alloc, max_free, with_validate_arguments) and every call history whose counts stay within "
     "range(max+1) (and, without validation, within the free/allocated amount); the model is tied to the code by "
     "cycle-exact comparison of done bits, returned identifiers, new pointers, ready bits and the three registers "
@@ -111,8 +111,8 @@ def monitor(case: Case, out: list[str]):
         i = _kv(op)
         f = _kv("x " + o)
         ac, fc = _opt(i["a"]), _opt(i["f"])
-        if (ac is not None and ac > ma) or (fc is not None and fc > mf):
-            return None  # outside the declared argument range
+        if ((ac is not None and ac > ma) or (fc is not None and fc > mf)) and not d.get("strict"):
+            return None  # outside the declared argument range (judged only for finding witnesses, desc.strict)
         ra, rf = _res(f["a"]), _res(f["f"])
         cnt = int(f["cnt"])
         oldest = (nxt - len(q)) % n
@@ -145,7 +145,7 @@ def monitor(case: Case, out: list[str]):
         newq = list(q)
         if rf is not None:
             ids, ns = rf
-            if ids[:fc] != q[:fc]:
+            if ids[:fc] != q[:fc][:mf]:
                 return f"cycle {k}: free({fc}) returned {ids[:fc]} but the {fc} oldest allocated are {q[:fc]}"
             if ns != (oldest + fc) % n:
                 return f"cycle {k}: free({fc}) new_start_idx={ns}, expected {(oldest + fc) % n}"
@@ -153,7 +153,7 @@ def monitor(case: Case, out: list[str]):
         if ra is not None:
             ids, ne = ra
             want = [(nxt + j) % n for j in range(ac)]
-            if ids[:ac] != want:
+            if ids[:ac] != want[:ma]:
                 return f"cycle {k}: alloc({ac}) returned {ids[:ac]} but the identifiers after the newest one are {want}"
             if ne != (nxt + ac) % n:
                 return f"cycle {k}: alloc({ac}) new_end_idx={ne}, expected {(nxt + ac) % n}"
@@ -168,6 +168,19 @@ def monitor(case: Case, out: list[str]):
 
 
 # ------------------------------------------------------------------ generators
+def _corpus() -> list[Case]:
+    """directed cases and minimised past failures kept under corpus/C27 (run first, monitored)"""
+    import json
+
+    from ..common import CORPUS
+
+    out = []
+    for path in sorted((CORPUS / "C27").glob("*.json")):
+        b = json.loads(path.read_text())
+        out.append(Case(b["cfg"], list(b["ops"]), b.get("desc", {}), "corpus"))
+    return out
+
+
 def _mk(n, ma, mf, val, ops, tag, preset=None) -> Case:
     cfg = f"cfg n={n} ma={ma} mf={mf} val={val}"
     if preset:
@@ -260,7 +273,9 @@ def _configs(ctx: Check, rng):
     ns = ctx.pick([1, 2, 3, 4, 5, 6, 7, 8, 9, 16, 17], list(range(1, 20)) + [31, 32, 33])
     out = []
     for n in ns:
-        pairs = {(1, 1), (2, 2), (n, n), (n + 1, 2), (3, n + 2), (rng.randint(1, n + 1), rng.randint(1, n + 1))}
+        pairs = {(1, 1), (2, 2), (n, n), (n + 1, 2), (3, n + 2)}
+        if ctx.thorough or n % 2:
+            pairs.add((rng.randint(1, n + 1), rng.randint(1, n + 1)))
         if ctx.thorough:
             pairs |= {(0, 1), (1, 0), (2, 1), (1, 2), (4, 3), (2 * n + 1, 2 * n + 1), (n - 1 or 1, n - 1 or 1)}
         elif n == 3:
@@ -274,7 +289,7 @@ def _configs(ctx: Check, rng):
 def gen_cases(ctx: Check) -> tuple[list[Case], list[Case]]:
     rng = ctx.rng("gen")
     valid, malformed = [], []
-    length = ctx.pick(120, 600)
+    length = ctx.pick(100, 600)
     for n, ma, mf, val in _configs(ctx, rng):
         valid.append(_mk(n, ma, mf, val, _directed(n, ma, mf, val), "directed"))
         regimes = [(0.9, 0.3, 0.01, 0.3), (0.3, 0.9, 0.01, 0.3), (0.8, 0.8, 0.03, 0.2), (1.0, 1.0, 0.0, 0.1)]
@@ -299,7 +314,7 @@ def exhaustive_cases(ctx: Check) -> tuple[list[Case], list[Case]]:
     (monitored), and every single step from every register valuation with every argument that fits the
     signals (model/implementation agreement only)."""
     hist, single = [], []
-    for n, ma, mf in [(1, 1, 1), (2, 1, 1), (2, 2, 2), (3, 2, 2), (3, 1, 2), (3, 3, 1)]:
+    for n, ma, mf in [(1, 1, 1), (2, 1, 1), (3, 2, 2), (3, 1, 2)]:
         for val in (1, 0):
             alph = [
                 (a, f, c)
@@ -310,7 +325,7 @@ def exhaustive_cases(ctx: Check) -> tuple[list[Case], list[Case]]:
             for L in (1, 2, 3):
                 for seq in itertools.product(alph, repeat=L):
                     hist.append(_mk(n, ma, mf, val, list(seq), "exhaustive"))
-    for n, ma, mf in [(1, 1, 1), (2, 2, 2), (3, 2, 2), (3, 4, 1), (4, 3, 3), (5, 2, 3), (6, 7, 2)]:
+    for n, ma, mf in [(1, 1, 1), (2, 2, 2), (3, 2, 2), (3, 4, 1), (4, 3, 3), (5, 2, 3)]:
         idw, cw = (n - 1).bit_length(), n.bit_length()
         wa, wf = ma.bit_length(), mf.bit_length()
         for val in (1, 0):
@@ -360,8 +375,10 @@ def run(ctx: Check):
         "or alloc and free execute in the same cycle, or a ready method rejects a call by validation"
     )
     ctx.proof_stage()
+    ctx.replay_findings(replay_witness)
     procs = ctx.pick(1, None)
     valid, malformed = gen_cases(ctx)
+    valid = _corpus() + valid
     lockstep(ctx, "circular-allocator", "C27", valid, impl, monitor, more_cases, nontrivial, procs=procs)
     lockstep(ctx, "circular-allocator-malformed", "C27", malformed, impl, None, None, nontrivial, procs=procs)
     ctx.count("configurations", len({(c.desc["n"], c.desc["ma"], c.desc["mf"], c.desc["val"]) for c in valid}))
@@ -369,12 +386,19 @@ def run(ctx: Check):
         hist, single = exhaustive_cases(ctx)
         lockstep(ctx, "circular-allocator", "C27", hist, impl, monitor, more_cases, nontrivial, procs=procs)
         lockstep(ctx, "circular-allocator-single-step", "C27", single, impl, None, None, lambda c, o: True, procs=procs)
-        ctx.note("thorough: all histories of length<=3 with in-range counts for 6 smallest configurations x validation; "
-                 "all single steps from all register valuations for 7 configurations x validation")
+        ctx.note("thorough: all histories of length<=3 with in-range counts for 4 smallest configurations x validation; "
+                 "all single steps from all register valuations for 6 configurations x validation")
     ctx.note("count > max_alloc (fits the signal, outside range(max_alloc+1)) with non-power-of-two entries: validation "
              "accepts it when allocated+count<=entries but mod_add has no case for it, end_idx is wrong afterwards "
              "(entries=3,max_alloc=2: alloc(3) at end_idx=2 gives end_idx=1). Outside the property's hypotheses; "
              "covered by the malformed stream for model/implementation agreement only.")
+
+
+def replay_witness(w: dict):
+    """witness of a (proposed/known) finding: {"cfg":..., "ops":[...], "desc":{...}}; desc.strict=true also
+    judges counts above max_alloc/max_free that still fit the argument signal"""
+    case = Case(w["cfg"], list(w["ops"]), w.get("desc", {}), "witness")
+    return monitor(case, impl(case))
 
 
 def replay(ctx: Check, body: dict):
